@@ -269,9 +269,9 @@ func TestC10(t *testing.T) {
 		return
 	}
 
-	kinds := 2
+	kinds := 4
 	if os.Getenv("VERIF_TIER") == "thorough" {
-		kinds = 12
+		kinds = 24
 	}
 	pars := []int{1, 2, 3, 4, 7}
 	for code := 0; code < nMonoids; code++ {
